@@ -1,0 +1,141 @@
+//! Verification hooks (feature `qco_verif` only).
+//!
+//! Re-exports crate-private items so an external harness can call the leaf
+//! functions of the codec directly. Nothing here changes behaviour; with the
+//! feature off this module is not compiled.
+
+pub use crate::bit_reader::BitReader;
+pub use crate::bit_words::BitWords;
+pub use crate::bit_writer::BitWriter;
+pub use crate::delta_encoding::{nth_order_deltas, reconstruct_nums, DeltaMoments};
+pub use crate::gcd_utils::{
+  common_gcd_for_chunk_meta, fold_prefix_gcds_left, gcd, gcd_bits_required, pair_gcd,
+};
+
+use crate::data_types::{NumberLike, UnsignedLike};
+use crate::errors::QCompressResult;
+use crate::{ChunkMetadata, Flags, Prefix};
+
+pub fn k_info<T: NumberLike>(p: &Prefix<T>) -> (usize, T::Unsigned, T::Unsigned) {
+  let info = p.k_info();
+  (info.k, info.only_k_bits_lower, info.only_k_bits_upper)
+}
+
+pub fn new_prefix<T: NumberLike>(
+  count: usize,
+  code: Vec<bool>,
+  lower: T,
+  upper: T,
+  run_len_jumpstart: Option<usize>,
+  gcd: T::Unsigned,
+) -> Prefix<T> {
+  Prefix {
+    count,
+    code,
+    lower,
+    upper,
+    run_len_jumpstart,
+    gcd,
+    phantom: std::marker::PhantomData,
+  }
+}
+
+pub fn new_flags(
+  use_5_bit_code_len: bool,
+  delta_encoding_order: usize,
+  use_min_count_encoding: bool,
+  use_gcds: bool,
+) -> Flags {
+  Flags {
+    use_5_bit_code_len,
+    delta_encoding_order,
+    use_min_count_encoding,
+    use_gcds,
+    phantom: std::marker::PhantomData,
+  }
+}
+
+pub fn new_chunk_metadata<T: NumberLike>(
+  n: usize,
+  compressed_body_size: usize,
+  prefix_metadata: crate::PrefixMetadata<T>,
+) -> ChunkMetadata<T> {
+  ChunkMetadata {
+    n,
+    compressed_body_size,
+    prefix_metadata,
+    phantom: std::marker::PhantomData,
+  }
+}
+
+pub fn bits_to_encode_count(flags: &Flags, n: usize) -> usize {
+  flags.bits_to_encode_count(n)
+}
+
+pub fn flags_parse_from(reader: &mut BitReader) -> QCompressResult<Flags> {
+  Flags::parse_from(reader)
+}
+
+pub fn flags_write(flags: &Flags, writer: &mut BitWriter) -> QCompressResult<()> {
+  flags.write(writer)
+}
+
+pub fn writer_write_usize(w: &mut BitWriter, x: usize, n: usize) {
+  w.write_usize(x, n)
+}
+
+pub fn writer_write_diff<U: UnsignedLike>(w: &mut BitWriter, x: U, n: usize) {
+  w.write_diff(x, n)
+}
+
+pub fn writer_write_varint(w: &mut BitWriter, x: usize, jumpstart: usize) {
+  w.write_varint(x, jumpstart)
+}
+
+pub fn writer_finish_byte(w: &mut BitWriter) {
+  w.finish_byte()
+}
+
+pub fn writer_overwrite_usize(w: &mut BitWriter, bit_idx: usize, x: usize, n: usize) {
+  w.overwrite_usize(bit_idx, x, n)
+}
+
+pub fn reader_bit_idx(r: &BitReader) -> usize {
+  r.bit_idx()
+}
+
+pub fn reader_read_diff<U: UnsignedLike>(r: &mut BitReader, n: usize) -> QCompressResult<U> {
+  r.read_diff::<U>(n)
+}
+
+pub fn reader_unchecked_read_diff<U: UnsignedLike>(r: &mut BitReader, n: usize) -> U {
+  r.unchecked_read_diff::<U>(n)
+}
+
+pub fn reader_read_varint(r: &mut BitReader, jumpstart: usize) -> QCompressResult<usize> {
+  r.read_varint(jumpstart)
+}
+
+pub fn reader_unchecked_read_varint(r: &mut BitReader, jumpstart: usize) -> usize {
+  r.unchecked_read_varint(jumpstart)
+}
+
+pub fn reader_read_prefix_table_idx(
+  r: &mut BitReader,
+  table_size_log: usize,
+) -> QCompressResult<(usize, usize)> {
+  r.read_prefix_table_idx(table_size_log)
+}
+
+pub fn choose_max_n_prefixes(comp_level: usize, n_unsigneds: usize) -> usize {
+  crate::compressor::hook_choose_max_n_prefixes(comp_level, n_unsigneds)
+}
+
+/// Returns (count, weight, lower_unsigned, upper_unsigned, jumpstart, gcd) per raw prefix.
+pub fn choose_unoptimized_prefixes<T: NumberLike>(
+  sorted: &[T::Unsigned],
+  comp_level: usize,
+  flags: &Flags,
+) -> Vec<(usize, usize, T::Unsigned, T::Unsigned, Option<usize>, T::Unsigned)> {
+  crate::compressor::hook_choose_unoptimized_prefixes::<T>(sorted, comp_level, flags)
+}
